@@ -687,6 +687,12 @@ fn check_c02_graph() {
             if let Ok(reps) = quiet(|| ds.orbit_reps(idx.clone(), 1..=n)) {
                 for c in &comps { let k = reps.iter().filter(|r| c.contains(r)).count(); if k != 1 { falsified("DSet::orbit_reps (Traversal)", format!("{} orbit_reps({:?}, all)", txt, idx), format!("{:?}: component {:?} has {} representatives", reps, c, k)); break; } }
             } else { falsified("DSet::orbit_reps (Traversal)", format!("{} orbit_reps({:?}, all)", txt, idx), "panic".into()); }
+            // the seeds in descending and in rotated order (any order of seeds must give one representative per component)
+            for (name, seeds) in [("descending", (1..=n).rev().collect::<Vec<usize>>()), ("rotated", (1..=n).map(|x| (x + n / 2) % n + 1).collect::<Vec<usize>>())] {
+                if let Ok(reps) = quiet(|| ds.orbit_reps(idx.clone(), seeds.clone())) {
+                    for c in &comps { let k = reps.iter().filter(|r| c.contains(r)).count(); if k != 1 { falsified("DSet::orbit_reps (Traversal)", format!("{} orbit_reps({:?}, seeds {} {:?})", txt, idx, name, seeds), format!("{:?}: component {:?} has {} representatives", reps, c, k)); break; } }
+                } else { falsified("DSet::orbit_reps (Traversal)", format!("{} orbit_reps({:?}, seeds {})", txt, idx, name), "panic".into()); }
+            }
             // every i-edge of the traversed component exactly once
             for d in 1..=n.min(3) {
                 if let Ok(tr) = quiet(|| ds.traversal(idx.clone(), [d]).collect::<Vec<_>>()) {
